@@ -990,4 +990,108 @@ package other;
 message Other {}
 `},
 	},
+	{
+		// A chain of import files below the target files in which every file is needed ONLY by the
+		// content of the file above it that nothing asks for (an exclude-only filter keeps a kept import
+		// file with all of its non-excluded content, so that content's needs must be in the image as
+		// well, generation after generation). Image order is the reverse of the chain (dependency
+		// order: descriptor, c5, c4, c3, c2, c1, t, t2), so a walk that is not run to its fixpoint
+		// leaves c2 (one forward pass), c3 (two), c4 (three) kept with content whose file is gone.
+		// Every hop is a different reference kind; the hops below c2 are all link-relevant:
+		//
+		//	t.Keep        -field type->      c1.M1               (the only thing a target needs of the chain)
+		//	c1.U1         -custom option->   c2.tag              (c1.U1 is used by nothing)
+		//	c2.x2         -extendee->        c3.Base3            (c2.x2 is used by nothing)
+		//	c3.S3.Do      -request/response-> c4.Req4            (c3.S3 is used by nothing)
+		//	c4.U4.by      -map value type->  c5.Last5            (c4.U4 is used by nothing)
+		//	c5.U5.api     -field type->      google.protobuf.Api (api.proto -> type.proto -> any.proto, source_context.proto)
+		//
+		// The second target file t2 enters the chain in the middle (t2.Uses3 -> c3.Base3); excluding
+		// package t or t2 (part of the exhaustive filter enumeration) moves the entry point, and c2 is
+		// then reached only "from below", as the file of a known extension of c3.Base3.
+		Name:    "import-chains",
+		Covers:  []string{"import chain of depth 5 + WKT chain where every file is needed only by unreferenced content of the import file above it", "chain entered at the top / in the middle", "import file reached only as the home of a known extension"},
+		Targets: []string{"t.proto", "t2.proto"},
+		Files: map[string]string{
+			"t.proto": `syntax = "proto3";
+package t;
+import "c1.proto";
+// L:t.Keep
+message Keep {
+  // L:t.Keep.m
+  c1.M1 m = 1;
+}
+// L:t.Unwanted
+message Unwanted {}
+`,
+			"t2.proto": `syntax = "proto3";
+package t2;
+import "c3.proto";
+// L:t2.Uses3
+message Uses3 {
+  // L:t2.Uses3.b
+  c3.Base3 b = 1;
+}
+`,
+			"c1.proto": `syntax = "proto3";
+package c1;
+import "c2.proto";
+// L:c1.M1
+message M1 {}
+// L:c1.U1
+message U1 {
+  option (c2.tag) = "u1";
+  // L:c1.U1.s
+  string s = 1;
+}
+`,
+			"c2.proto": `syntax = "proto2";
+package c2;
+import "google/protobuf/descriptor.proto";
+import "c3.proto";
+extend google.protobuf.MessageOptions {
+  // L:c2.tag
+  optional string tag = 50001;
+}
+extend c3.Base3 {
+  // L:c2.x2
+  optional int32 x2 = 10;
+}
+`,
+			"c3.proto": `syntax = "proto2";
+package c3;
+import "c4.proto";
+// L:c3.Base3
+message Base3 {
+  extensions 10 to 20;
+}
+// L:c3.S3
+service S3 {
+  // L:c3.S3.Do
+  rpc Do(c4.Req4) returns (c4.Req4);
+}
+`,
+			"c4.proto": `syntax = "proto3";
+package c4;
+import "c5.proto";
+// L:c4.Req4
+message Req4 {}
+// L:c4.U4
+message U4 {
+  // L:c4.U4.by
+  map<string, c5.Last5> by = 1;
+}
+`,
+			"c5.proto": `syntax = "proto3";
+package c5;
+import "google/protobuf/api.proto";
+// L:c5.Last5
+message Last5 {}
+// L:c5.U5
+message U5 {
+  // L:c5.U5.api
+  google.protobuf.Api api = 1;
+}
+`},
+	},
 }
